@@ -495,6 +495,21 @@ class World(object):
         self.fault_at = None
         return outcome, self.nwrites
 
+    def fingerprint(self):
+        """Everything check() and a further run depend on, except the clock:
+        node table (data, mtime) and what this lineage uploaded / pruned."""
+        nodes = self.tree.nodes
+        return (
+            tuple(sorted((path, node.data, node.mtime)
+                         for path, node in nodes.items())),
+            tuple(sorted((fam, name, legit)
+                         for fam in FAMILY_ORDER
+                         for name, (_blob, legit) in self.pruned[fam].items())),
+            tuple(sorted((fam, name) for fam in FAMILY_ORDER
+                         for name in self.seen[fam])),
+            len(self.prune_errors),
+        )
+
     # -- oracle -------------------------------------------------------------
     def _download(self, fam, node_name, blob, obj):
         """download_batch() of the real code, memoised on the blob."""
